@@ -114,6 +114,7 @@ structure Obs where
   round : Nat
   ceil : Nat
   floor : Nat
+  deriving DecidableEq, Repr
 
 /-- "for finite inputs, round/ceil/floor with any precision return a finite value within
     10^-precision of the input (ceil never below, floor never above)". -/
